@@ -6,9 +6,16 @@
    Once = TRUE   : (with Atomic) no changes, and every unordered pair exchanges at most once:
                    with Depth = 1 + number of pairs the histories are all orders and directions
                    of one exchange per pair, each ending with AllPairs (convergence asserted).
+   MaxSends > 0  : (message level) at most MaxSends exchanges are started; a history also ends
+                   (and is emitted) as soon as all of them have run to completion, so with
+                   Depth >= 1 + 4 * MaxSends the histories are ALL interleavings of the messages
+                   of MaxSends exchanges (between any initiators / peers), e.g. a whole exchange
+                   delivered between another exchange's sync and ack, or ack and ack2, at one node.
+   NoDrop = TRUE : no message is dropped.
+   MaxChanges    : at most that many tick / state / restart steps in a history.
    First entry of every history is an "init" record holding the initial views.        *)
 EXTENDS Gossip, Sequences, Json
-CONSTANTS Depth, Atomic, Once
+CONSTANTS Depth, Atomic, Once, MaxSends, NoDrop, MaxChanges
 VARIABLE hist
 \* compact JSON: a record [g, v, s] is printed as the array [g, v, s], a digest as [g, v]
 CRecs(f) == [k \in DOMAIN f |-> <<f[k].g, f[k].v, f[k].s>>]
@@ -26,18 +33,22 @@ Changes == \E n \in Node :
              \/ Tick(n) /\ Log("tick", n, "", 0)
              \/ Restart(n) /\ Log("restart", n, "", 0)
              \/ \E s \in 0..MaxState : StateChange(n, s) /\ Log("state", n, "", s)
-GNext == /\ Len(hist) < Depth
-         /\ \/ ~Once /\ Changes
+NumSends == Cardinality({k \in 1..Len(hist) : hist[k].a = "send"})
+NumChanges == Cardinality({k \in 1..Len(hist) : hist[k].a \in {"tick", "state", "restart"}})
+AllDone == MaxSends > 0 /\ NumSends = MaxSends /\ net = {}
+GNext == /\ Len(hist) < Depth /\ ~AllDone
+         /\ \/ ~Once /\ NumChanges < MaxChanges /\ Changes
             \/ Atomic /\ \E i, j \in Node : (~Once \/ {i, j} \notin exchanged) /\ Exchange(i, j) /\ Log("xchg", i, j, 0)
-            \/ ~Atomic /\ \E i, j \in Node : SendSync(i, j) /\ Log("send", i, j, 0)
+            \/ ~Atomic /\ (MaxSends = 0 \/ NumSends < MaxSends)
+                      /\ \E i, j \in Node : SendSync(i, j) /\ Log("send", i, j, 0)
             \/ ~Atomic /\ \E m \in net :
                   \/ HandleSync(m) /\ Log("sync", Initiator(m), Peer(m), 0)
                   \/ HandleAck(m) /\ Log("ack", Initiator(m), Peer(m), 0)
                   \/ HandleAck2(m) /\ Log("ack2", Initiator(m), Peer(m), 0)
-                  \/ Drop(m) /\ Log("drop", Initiator(m), Peer(m), 0)
+                  \/ ~NoDrop /\ Drop(m) /\ Log("drop", Initiator(m), Peer(m), 0)
 GInit == /\ Init
          /\ hist = <<[a |-> "init", i |-> "", j |-> "", s |-> 0, m |-> NoMsg, st |-> CView(view),
                       conv |-> FALSE]>>
 GSpec == GInit /\ [][GNext]_<<vars, hist>>
-Emit == Len(hist) # Depth \/ PrintT(<<"HIST", ToJson(hist)>>)
+Emit == (Len(hist) # Depth /\ ~AllDone) \/ PrintT(<<"HIST", ToJson(hist)>>)
 ====
